@@ -198,8 +198,7 @@ def build_driver():
         shutil.copy(s, ex)
     order = ["model.mli", "model.ml", "conv.ml"] + \
         sorted(os.path.basename(p) for p in glob.glob(os.path.join(VERIF, "ocaml", "ops_*.ml"))) + ["driver.ml"]
-    rc, out = sh(["ocamlfind", "ocamlopt", "-w", "-a", "-unboxed-types"] if False else
-                 ["ocamlfind", "ocamlopt", "-w", "-a"] + order + ["-o", "driver"], cwd=ex, timeout=900)
+    rc, out = sh(["ocamlfind", "ocamlopt", "-w", "-a"] + order + ["-o", "driver"], cwd=ex, timeout=900)
     if rc != 0:
         return None, out
     with open(stamp, "w") as f:
